@@ -15,19 +15,19 @@ def hexVal (c : Char) : Nat :=
   if c.isDigit then c.toNat - 48 else if 'a' ≤ c ∧ c ≤ 'f' then c.toNat - 87 else if 'A' ≤ c ∧ c ≤ 'F' then c.toNat - 55 else 0
 
 /-- "6162" -> "ab"; "u00e40062" -> 4 hex digits per unit; stops at ':' -/
+def unhex2 : List Char → Str → Str
+  | a :: b :: r, acc => unhex2 r (Char.ofNat (hexVal a * 16 + hexVal b) :: acc)
+  | _, acc => acc.reverse
+
+def unhex4 : List Char → Str → Str
+  | a :: b :: c :: d :: r, acc => unhex4 r (Char.ofNat (((hexVal a * 16 + hexVal b) * 16 + hexVal c) * 16 + hexVal d) :: acc)
+  | _, acc => acc.reverse
+
 def unhex (s : String) : Str :=
   let cs := s.toList.takeWhile (· != ':')
-  let (wide, cs) := match cs with | 'u' :: r => (true, r) | _ => (false, cs)
-  let nd := if wide then 4 else 2
-  let rec go (l : List Char) (fuel : Nat) (acc : Str) : Str :=
-    match fuel with
-    | 0 => acc.reverse
-    | fuel + 1 =>
-      if l.length < nd then acc.reverse
-      else
-        let v := (l.take nd).foldl (fun n c => n * 16 + hexVal c) 0
-        go (l.drop nd) fuel (Char.ofNat v :: acc)
-  go cs cs.length []
+  match cs with
+  | 'u' :: r => unhex4 r []
+  | _ => unhex2 cs []
 
 def hexNat (n : Nat) : String := String.ofList (Nat.toDigits 16 n)
 
@@ -105,11 +105,42 @@ def cRender (cfmt : Str) (cval : String) (args : List Arg) : String :=
       if spec.conv == 's' then units (CSpec.renderStr spec (unhex h) ++ rest) else "NA"
     | _ => "NA"
 
+def parseKind (k : String) : Option OutKind :=
+  if k == "cpl" then some .cpl else if k == "cplcpy" then some .cplcpy else if k == "cpldup" ∨ k == "oodup" ∨ k == "getoo" ∨ k == "bdup" ∨ k == "getb" then some .cpldup
+  else if k == "strp" then some .strp else if k == "strpcat" then some .strpcat else none
+
+def showVRes (buflen : Nat) : VRes → String
+  | .ok t => s!"K=0 len={t.length} text={units t}"
+  | .einval (some n) => s!"K=-1 len={n} text=NA"
+  | .einval none => s!"K=-1 len={buflen} text=NA"
+
+/-- `K <kind> <p|-> <buflen> <prehex> <arg> exp=<hex>`: the model of hawk_rtx_valtostr for integers (val_int_to_str), strings, characters
+and nil (str_to_str) and, for a float, of the delivery of its text (given as exp=, produced by libc) -/
+def stepK (fields : List String) : String :=
+  match fields with
+  | _ :: kind :: _ :: bl :: pre :: arg :: rest =>
+    match parseKind kind, parseArg (if arg.startsWith "f:" then arg ++ ":0:" else if arg.startsWith "s:" then arg ++ ":0" else if arg.startsWith "c:" then arg ++ ":0" else arg) with
+    | some k, some a =>
+      let buflen := bl.toNat?.getD 0
+      let pre := unhex pre
+      let exp : Str := match rest with
+        | e :: _ => if e.startsWith "exp=" then unhex (String.ofList (e.toList.drop 4)) else []
+        | [] => []
+      match a with
+      | .int v => showVRes buflen (valIntToStr v k buflen pre)
+      | .flt _ _ => showVRes buflen (deliverFlt exp k buflen pre)
+      | .str s _ => showVRes buflen (strToStr s k buflen pre)
+      | .chr c _ => if kind == "cpl" then "skip" else showVRes buflen (strToStr [c] k buflen pre)
+      | .nil => showVRes buflen (strToStr [] k buflen pre)
+    | _, _ => "skip"
+  | _ => "skip"
+
 def step (_ : Unit) (line : String) : Unit × String :=
   let line := (line.toList.filter fun c => c != '\n' && c != '\r')
   let fields := (String.ofList line).splitOn "\t"
   match fields with
   | mode :: fmthex :: cfmthex :: cval :: argstrs =>
+    if mode == "K" then ((), stepK fields) else
     if mode == "S" ∨ mode == "B" ∨ mode == "C" then
       match argstrs.mapM parseArg with
       | none => ((), "bad-arg")
